@@ -98,6 +98,7 @@ for _ in range(int(sys.argv[1]) if len(sys.argv)>1 else 5000):
     cases.append((out,' '.join(toks)))
 inp='\n'.join(c[0].hex() for c in cases)+'\n'
 res=subprocess.run(['/tmp/scratch/target/release/p7'],input=inp.encode(),capture_output=True).stdout.decode().splitlines()
+assert len(res)==len(cases), (len(res),len(cases))
 bad=0
 for (b,exp),got in zip(cases,res):
     if exp!=got:
